@@ -6,6 +6,8 @@ arrays, vector costs, ids, special floats; `len`, `[i]`, slices, list/array/mask
 file read back by `munge.logfile_reader`, and `write_raw_file / write_support_file / write_converge_file /
 read_history` read back by `read_raw_file`, against lean Model/Monitor run at Float (bit-exact values, exact
 structure, error enums).  `str.split("   ")` vs the model's `split3` on random strings and on every real log line.
+Ids through the parameter files and the matching readers (`read_support_file`, `read_converge_file`, `iter` on/off,
+`read_history(file)`): harness/c20_ids.py (streams `idfile`, `idex`).
 
 Monitor (independent of the model): an oracle list of the recorded (x, y, id) triples is maintained by the
 harness from the *inputs* (calls append, slices/indices select, + / extend / prepend concatenate) and the
@@ -16,6 +18,7 @@ import common
 from common import case_rng, f2b, b2f, parse_reply, dyadic
 import framework, leandrv
 from framework import Finding
+import c20_ids
 
 PID = "C20"
 MODULE = "MysticVerif.Props.C20"
@@ -68,6 +71,12 @@ THEOREMS = [
     "MysticVerif.C20.support_ragged_witness",
     "MysticVerif.C20.process_ids_tuples",
     "MysticVerif.C20.log_gaps_spec",
+    # ids through the parameter files, matching readers (Props/C20Ids.lean)
+    "MysticVerif.C20.file_ids_roundtrip",
+    "MysticVerif.C20.files_ids_spec",
+    "MysticVerif.C20.monitor_ids_spec",
+    "MysticVerif.C20.read_converge_roundtrip",
+    "MysticVerif.C20.read_support_roundtrip",
 ]
 
 NREG = 4
@@ -82,6 +91,7 @@ KEY_F13 = "Monitor.y/k-scaling-inexact/k-not-a-power-of-two"
 KEY_F13U = "Monitor.y/k-scaling-inexact/subnormal-cost"
 KEY_D1 = "%s/cost-divided-by-k-twice"
 KEY_D2 = "%s/numpy-scalar-repr-unreadable"
+KEY_D2I = "%s/numpy-integer-id-list-repr-unreadable"
 KEY_D3 = "Monitor.__call__/0d-array-cost-with-k/raises"
 KEY_D4 = "%s/first-cost-numpy-others-python/raises"
 KEY_K5 = "munge.read_import/second-directory-in-one-process/module-not-found"
@@ -91,7 +101,7 @@ KEY_NPTS = "LoggingMonitor.__add__/npts-dropped-by-__reduce__"
 KEY_RAG = "write_support_file/records-of-different-dimension/truncated-to-the-shortest"
 
 
-KNOWN_KEYS = {KEY_F13, KEY_F13U, KEY_D3, KEY_K5, KEY_POS, KEY_CM, KEY_NPTS, KEY_RAG} | {k % w for k in (KEY_D1, KEY_D2, KEY_D4)
+KNOWN_KEYS = {KEY_F13, KEY_F13U, KEY_D3, KEY_K5, KEY_POS, KEY_CM, KEY_NPTS, KEY_RAG} | {k % w for k in (KEY_D1, KEY_D2, KEY_D2I, KEY_D4)
                                                     for w in ("write_raw_file", "write_support_file", "write_converge_file", "read_history(monitor)")}
 
 
@@ -1016,6 +1026,29 @@ class Case:
             self.find("monitor", "%s/cost-wrong" % writer, "%s (k=%r): cost %d read back as %s, recorded %s" % (writer, k, i, show(tc), show(rc["y"])))
             return
 
+    def ids_check(self, site, steps, rec):
+        """the property on the `iter` list a reader returns for the records `rec`: the id recorded with every entry
+        comes back with it, and the iteration number of an entry counts the earlier entries with the same id"""
+        want = [rc["id"] for rc in rec]
+        if steps is None:
+            if rec:
+                self.find("monitor", "%s/iterations-count" % site, "no iteration entries for %d recorded iterations (ids %r)" % (len(rec), want))
+            return
+        try:
+            if len(steps) != len(rec):
+                return                        # reported as iterations-count by the caller
+            col = c20_ids.id_column(steps, len(rec)); its = [int(tuple(t)[0]) for t in steps]
+        except Exception as exc:
+            self.find("monitor", "%s/iter-entries-unreadable" % site, "iter list %r (%r)" % (steps, exc))
+            return
+        icl = c20_ids.idclass(want)
+        self.h("files:ids:" + icl)
+        if col != want:
+            self.find("monitor", "%s/ids-changed/%s" % (site, icl), "recorded ids %r, read back %r (iter list %r)" % (want, col, list(steps)))
+        elif its != c20_ids.per_id_iter(want):
+            self.find("monitor", "%s/iteration-numbers-wrong/%s" % (site, icl), "recorded ids %r: iteration numbers %r, expected one counter per id %r"
+                      % (want, its, c20_ids.per_id_iter(want)))
+
     def op_files(self, r):
         from mystic import munge
         m = self.regs[r]; rec = self.recs[r]; k = self.kk[r]
@@ -1067,6 +1100,7 @@ class Case:
             if nid is not None and nid != len(rec) and not (opname == "wsup" and not rect):
                 self.find("monitor", "%s/iterations-count" % writer, "read_raw_file(iter=True) of the %s output returns %d iteration entries %r for %d recorded iterations"
                           % (writer, nid, list(ids)[:6], len(rec)))
+            self.ids_check("%s->read_raw_file" % writer, ids, rec)
             if opname == "wraw":
                 tp = [pv_of(p) for p in params]
                 if not same_tok(tp, [rc["x"] for rc in rec]):
@@ -1118,6 +1152,7 @@ class Case:
                 exp = self.file_tokens(res, True)
                 self.emit("(rhist %d)" % r, exp, "read_history(r%d, iter=True) -> %s" % (r, show(exp)))
                 self.h("files:read_history(monitor)")
+                self.ids_check("read_history(monitor)", res[0], rec)
                 if rect and rec:
                     dim = len(rec[0]["x"]) - 1
                     dec = [["v"] + [f2b(float(res[1][j][i][0])) for j in range(dim)] for i in range(len(rec))]
@@ -1812,6 +1847,26 @@ def run_shard(pid, seed, shard, ncases, tier, extra):
                 line, lexp, line2, pid, fs, readable = run_loghist(rng, tmpdir, "s%d_%d_%d" % (seed, shard, j))
             reqs.append(("loghist", (lexp, fs, readable, j), line))
             reqs.append(("pidsl", (pid, [], readable, j), line2))
+        # ids through the parameter files (harness/c20_ids.py): pattern family, then every short id sequence
+        def id_case(stream, j, ids):
+            rng = case_rng(PID + "/" + stream, seed, shard, j)
+            out = c20_ids.run_idfile(rng, tmpdir, "%s%d_%d_%d" % (stream, seed, shard, j), ids=ids)
+            for key, v in out["hist"].items():
+                hist[key] = hist.get(key, 0) + v
+            case = {"seed": seed, "shard": shard, "stream": stream, "case": j, "tier": tier, "ops": out["readable"]}
+            for kind2, key, what in out["findings"]:
+                findings.append(Finding(kind2, key, what, dict(case, request=[l[1] for l in out["lines"]])))
+            for kind2, line, exp, what in out["lines"]:
+                reqs.append((kind2, (exp, case, what, any(f[1] not in KNOWN_KEYS for f in out["findings"])), line))
+        for j in stream_range("idfile", max(8, ncases // 4)):
+            id_case("idfile", j, None)
+        pats = c20_ids.exhaustive_patterns(tier)
+        slot = shard % c20_ids.NSLOTS.get(tier, 16)
+        if only_stream == "idex":
+            id_case("idex", only, pats[only])
+        elif only is None and not only_stream:
+            for j in range(slot, len(pats), c20_ids.NSLOTS.get(tier, 16)):
+                id_case("idex", j, pats[j])
         if (only is None and not only_stream) or only_stream == "null":
             for kind2, key, what in null_checks(tmpdir):
                 findings.append(Finding(kind2, key, what, {"seed": seed, "shard": shard, "stream": "null"}))
@@ -1867,6 +1922,33 @@ def run_shard(pid, seed, shard, ncases, tier, extra):
                     findings.append(Finding("correspondence", "hprog/%s-diverges" % line.split("(ops (")[1].split("(")[jj + 1].split()[0] if False else "hprog/op-diverges",
                                             "op %d (%s): model %s implementation %s" % (jj, readable[jj] if jj < len(readable) else "?", show(g), show(e)), case))
                     break
+            continue
+        if kind in ("idprog", "identry", "idpidsl"):
+            exp, case0, what, had_finding = payload
+            hist["idfile:model-lines"] = hist.get("idfile:model-lines", 0) + 1
+            case = dict(case0, request=line, model=rep)
+            if had_finding:
+                continue                      # the case already has its finding; the files were not all read
+            if kind == "idpidsl":
+                if r[0] != "ok" or not same_tok(r[1]["s"], exp):
+                    findings.append(Finding("correspondence", "idfile/read_trajectories(monitor)-diverges", "%s: model %s implementation %s" % (case0["ops"][0], rep[:400], show(exp)), case))
+            elif kind == "identry":
+                for writer, seen in sorted(exp.items()):
+                    if r[0] != "ok" or not same_tok(r[1]["w"], seen):
+                        findings.append(Finding("correspondence", "idfile/%s/id-entry-diverges" % writer,
+                                                "%s: the file has the id entry %s, the model writes %s" % (case0["ops"][0], show(seen), rep[:300]), case))
+                        break
+            else:
+                nops, exps, whats = exp
+                got = r[1]["r"][nops:] if r[0] == "ok" else None
+                if got is None or len(got) != len(exps):
+                    findings.append(Finding("correspondence", "idfile/prog-model-%s" % r[0], "model replied %r" % (rep[:300],), case))
+                else:
+                    for g, e, w in zip(got, exps, whats):
+                        if not same_tok(g, e):
+                            findings.append(Finding("correspondence", "idfile/%s-diverges" % w.split(" (")[0].replace(" ", ""),
+                                                    "%s; %s: model %s implementation %s" % (case0["ops"][0], w, show(g), show(e)), case))
+                            break
             continue
         if kind in ("fmt", "loghist", "pidsl"):
             fexp, fs, readable, j = payload
@@ -1975,6 +2057,18 @@ def witnesses():
             except NameError as exc:
                 out.append(Finding("monitor", KEY_D2 % writer, "%s(Monitor after (numpy.array([1.5, 2.5]), 1.0)) wrote %r; read_raw_file raised %r"
                                    % (writer, [l for l in open(path).read().splitlines() if l.startswith("params")][0], exc), {"witness": "D2", "writer": writer}))
+            finally:
+                forget_module(path)
+        # D2I: several different ids given as numpy integers
+        for writer in ("write_raw_file", "write_support_file", "write_converge_file"):
+            m = Monitor(); m([1.0], 2.0, id=np.int64(0)); m([2.0], 3.0, id=np.int64(1))
+            path = os.path.join(tmp, "c20w2i_%s.py" % writer)
+            getattr(munge, writer)(m, path)
+            try:
+                munge.read_raw_file(path, iter=True)
+            except NameError as exc:
+                out.append(Finding("monitor", KEY_D2I % writer, "%s(Monitor after ([1.0], 2.0, id=numpy.int64(0)), ([2.0], 3.0, id=numpy.int64(1))) wrote %r; read_raw_file raised %r"
+                                   % (writer, [l for l in open(path).read().splitlines() if l.startswith("id = ")][0], exc), {"witness": "D2I", "writer": writer}))
             finally:
                 forget_module(path)
         # F13u: subnormal cost
@@ -2087,7 +2181,11 @@ def main(tier, seed):
             "Further streams per shard: heap programs (6 registers: 4 monitors + a real solver's generation and evaluation monitor slots; new/call/info/slice/list index/+/extend/prepend/min/[i]/"
             "SetGenerationMonitor/SetEvaluationMonitor hand-over, then a dump and a probe call through every register: exactly the registers holding the same object may grow), "
             "CustomMonitors (1-5 fields, positional / keyword / unknown keyword values), raw_to_converge / raw_to_support on ragged, empty, scalar and matrix steps, "
-            "LoggingMonitor files with interval 0-5 (gaps), ids and comment lines read by logfile_reader / read_trajectories / read_history, _process_ids on monitor id lists, Null monitors")
+            "LoggingMonitor files with interval 0-5 (gaps), ids and comment lines read by logfile_reader / read_trajectories / read_history, _process_ids on monitor id lists, Null monitors, "
+            "id-pattern monitors (c20_ids.py: no ids / one id / blocks / round robin / palindromes / equal ends around other ids / one differing entry / None around and inside ints / increasing / decreasing / random, "
+            "python and numpy integers, and EVERY id sequence of length <= 4 over {None,0,1,2} and <= 6 over {None,0,1} (thorough: <= 5 and <= 7); built by calls, +, extend, prepend; optional header and extra keywords) "
+            "written by write_raw_file / write_support_file / write_converge_file and read by read_raw_file, the matching reader with and without iter, and read_history: "
+            "id column, per-id iteration numbers, entry count, decoded parameters and costs against the call arguments")
     tb = ["Lean 4.33 kernel; axioms per theorem listed under coverage.theorems",
           "hand-written model Model/Monitor.lean tied to monitors.py / tools.py / munge.py by this bit-exact differential run only",
           "Python repr/eval (and import) round trip of floats incl. inf/nan: runtime, exercised through the real files",
